@@ -1,0 +1,24 @@
+//go:build verif
+
+package group
+
+import "os"
+
+// Exports for the C19 (path confinement) correspondence driver.  Add-only.
+
+func VerifPathsValidGroupName(s string) bool { return validGroupName(s) }
+
+func VerifPathsValidUsername(s string) bool { return validUsername(s) }
+
+// VerifPathsDescriptionFiles returns the file names getDescriptionFile
+// hands to its get function, in order, when none of them exists.
+func VerifPathsDescriptionFiles(name string, allowSubgroups bool) []string {
+	var out []string
+	getDescriptionFile(name, allowSubgroups,
+		func(fileName string) (struct{}, error) {
+			out = append(out, fileName)
+			return struct{}{}, os.ErrNotExist
+		},
+	)
+	return out
+}
